@@ -81,9 +81,9 @@ var c19eHandlers = map[string]func(ctx *fasthttp.RequestCtx){
 	"getAlias":        func(ctx *fasthttp.RequestCtx) { eswriter.ProcessGetAlias(ctx, 0) },
 	"getIndexAlias":   func(ctx *fasthttp.RequestCtx) { eswriter.ProcessGetIndexAlias(ctx, 0) },
 	"indexAliasExist": func(ctx *fasthttp.RequestCtx) { eswriter.ProcessIndexAliasExist(ctx, 0) },
-	"lookupUpload":    lookups.UploadLookupFile,
-	"lookupGet":       lookups.GetLookupFile,
-	"lookupDelete":    lookups.DeleteLookupFile,
+	"lookupUpload":    func(ctx *fasthttp.RequestCtx) { callLookupHandler(lookups.UploadLookupFile, ctx, 0) },
+	"lookupGet":       func(ctx *fasthttp.RequestCtx) { callLookupHandler(lookups.GetLookupFile, ctx, 0) },
+	"lookupDelete":    func(ctx *fasthttp.RequestCtx) { callLookupHandler(lookups.DeleteLookupFile, ctx, 0) },
 	"dashCreate":      func(ctx *fasthttp.RequestCtx) { dashboards.ProcessCreateDashboardRequest(ctx, 0) },
 	"dashUpdate":      func(ctx *fasthttp.RequestCtx) { dashboards.ProcessUpdateDashboardRequest(ctx, 0) },
 	"dashGet":         func(ctx *fasthttp.RequestCtx) { dashboards.ProcessGetDashboardRequest(ctx, 0) },
